@@ -270,7 +270,7 @@ def stream_for0(pid, tier, seed):
         cases += exhaustive("C07-z2", small_bases(rng, zprogs, ["iter"]), 2, 9 if not big else 12)
         return cases
     if pid in ("C08", "C15"):
-        prof = dict(kinds=["vec", "array", "iter"], skip=(pid == "C08" and False), lens=[0, 1, 2, 3, 5, 8], drain=0.3)
+        prof = dict(kinds=["vec", "array", "iter"], skip=True, lens=[0, 1, 2, 3, 5, 8], drain=0.3)
         cases = defects + pulls_stream(rng, tier, pid, prof=prof, n_random=1500 if not big else 60000, exh=False)
         cases += half_stream(rng, pid, kinds=("iter", "vec", "array"))
         # every ending at every progress point, sequentially
